@@ -60,7 +60,16 @@ def walk_steps(ctx, f):
             continue
         seen.add((d.node, t))
         out.append(Step(f, d, f.nodes[d.node], t, t[1][1], state, col))
-    return out
+    # a temporary that only carries the new state into the state variable (`t = ACC[S][c]; S = t`) is the same step
+    by_term = {}
+    for s in out:
+        by_term.setdefault(s.term, []).append(s)
+    keep = []
+    for term, ss in by_term.items():
+        named = [s for s in ss if s.state[0] == 'v' and s.d.name == s.state[1]]
+        keep.extend(named if named else ss)
+    keep.sort(key=lambda s: s.node.id)
+    return keep
 
 
 def strip_wrappers(t):
@@ -76,7 +85,7 @@ def strip_wrappers(t):
 
 
 def membership_guard(ctx, f, step):
-    """how is `sym is a live letter of the step's source vertex` established?  returns text or None"""
+    """how is `sym is a live letter of the step's source vertex` established on EVERY path that reaches the step?"""
     K = ctx.kinds
     sym, state, acc = step.sym, step.state, step.acc
 
@@ -88,29 +97,75 @@ def membership_guard(ctx, f, step):
         lv = K.live_letters(x, f)
         return lv is not None and live_of(lv)
 
-    # (1) path condition: sym in live_letters / sym == ALPHA[LIVE[0]]
-    for atom, pol in ctx.conds(f, step.node):
+    def atom_establishes(atom, pol):
         if not pol or atom[0] != 'cmp':
-            continue
+            return None
         if atom[1] == 'in' and atom[2] == sym and letters_of(strip_wrappers(atom[3])):
-            return 'path condition: symbol in live letters of the same vertex'
+            return 'symbol in live letters of the same vertex'
         if atom[1] == '==':
             for a, b in ((atom[2], atom[3]), (atom[3], atom[2])):
                 if a == sym and b[0] == 'sub' and is_alpha(b[1]) and b[2][0] == 'sub' and b[2][2] == ('c', 0) \
                         and live_of(b[2][1]):
-                    return 'path condition: symbol equals the first live letter of the same vertex'
+                    return 'symbol equals the first live letter of the same vertex'
+        return None
     # (2) sym drawn by iteration from the live letters
     if sym[0] == 'iter' and letters_of(strip_wrappers(sym[1])):
         return 'symbol iterates over the live letters of the same vertex'
-    # (3) a dominating evaluation of live_letters.index(sym) (raises ValueError when absent)
+    # (1) path conditions of the step itself
+    for atom, pol in ctx.conds(f, step.node):
+        h = atom_establishes(atom, pol)
+        if h:
+            return 'path condition: ' + h
+    # (3) path-wise: on every path from the loop head (or the function entry) to the step, a decision or a successful
+    #     live_letters.index(symbol) establishes membership
+    def node_indexes(nd):
+        for n2, r, t in ctx.root_terms(f):
+            if n2.id != nd.id:
+                continue
+            for s in walk_term(t):
+                if s[0] == 'call' and s[1][0] == 'attr' and s[1][2] == 'index' and len(s[2]) == 1 and s[2][0] == sym \
+                        and letters_of(strip_wrappers(s[1][1])):
+                    return True
+        return False
+    loop = step.node.loops[-1] if step.node.loops else None
+    if loop is not None:
+        hows, total = set(), 0
+        for path, kind in ctx.body_paths(f, loop):
+            if step.node.id not in path:
+                continue
+            total += 1
+            upto = path[:path.index(step.node.id)]
+            how = None
+            dec = {nd.id: pol for nd, pol in path_decisions(f, path)}
+            for i, nid in enumerate(upto):
+                nd = f.nodes[nid]
+                if nid in dec and dec[nid] is not None:
+                    for atom, pol in flatten_cond(f.term(nd.ast, nd), dec[nid]):
+                        how = how or atom_establishes(atom, pol)
+                if node_indexes(nd):
+                    nxt = f.nodes[path[i + 1]] if i + 1 < len(path) else None
+                    if nxt is None or nxt.kind != 'except':
+                        how = how or 'live_letters.index(symbol) succeeded (ValueError when absent)'
+            if how is None:
+                # is the symbol examined at all on this path?  if some test / index() involving it exists but is not of a
+                # recognised form, the rule cannot decide; only a path that never looks at the symbol is a refutation
+                mentions = False
+                for nid in upto:
+                    nd = f.nodes[nid]
+                    for n2, r, t in ctx.root_terms(f):
+                        if n2.id == nid and nd.kind in ('test', 'stmt') and any(x == sym for x in walk_term(t)) and \
+                                (nd.kind == 'test' or any(x[0] == 'call' and x[1][0] == 'attr' and x[1][2] in ('index', 'find')
+                                                          for x in walk_term(t))):
+                            mentions = True
+                return 'UNCLASSIFIED' if mentions else None
+            hows.add(how)
+        if total:
+            return 'on all %d paths to the step: %s' % (total, '; '.join(sorted(hows)))
+    # straight-line code before a loop: dominating evaluation
     dom = f.dominators()[step.node.id]
-    for nd, r, t in ctx.root_terms(f):
-        if nd.id not in dom or nd.id == step.node.id:
-            continue
-        for s in walk_term(t):
-            if s[0] == 'call' and s[1][0] == 'attr' and s[1][2] == 'index' and len(s[2]) == 1 and s[2][0] == sym \
-                    and letters_of(s[1][1]):
-                return 'dominating live_letters.index(symbol) (ValueError when absent)'
+    for nd in f.nodes:
+        if nd.id in dom and nd.id != step.node.id and node_indexes(nd):
+            return 'dominating live_letters.index(symbol) (ValueError when absent)'
     return None
 
 
@@ -150,7 +205,11 @@ def r_walk(ctx, fqs, floors=None):
             role = 'walk-step#%d' % (i + 1)
             if s.reader:
                 how = membership_guard(ctx, f, s)
-                if how:
+                if how == 'UNCLASSIFIED':
+                    run.undecided('R-WALK', f, role + ':guard', s.node.lineno,
+                                  'the symbol is examined before the state update, but not in a form recognised as a '
+                                  'membership test on the live letters of the current vertex', extracted=show(s.term))
+                elif how:
                     run.ok('R-WALK', f, role + ':guard', s.node.lineno, how, extracted=show(s.term))
                 else:
                     run.refute('R-WALK', f, role + ':guard', s.node.lineno,
@@ -318,6 +377,8 @@ def case_atom(ctx, f, loop, case):
     def atom(t):
         if is_call(t, 'builtins.len') and len(t[2]) == 1 and live_of(t[2][0]):
             return case['DEG']
+        if t[0] == 'attr' and t[2] == 'size' and live_of(t[1]):
+            return case['DEG']
         v = flag_atom(t, case)
         if v is not UNKNOWN:
             return v
@@ -333,24 +394,72 @@ def case_atom(ctx, f, loop, case):
     return atom
 
 
+def index_nodes(ctx, f, loop):
+    """nodes of the loop body that evaluate live_letters(S).index(sym): they raise ValueError iff sym is not live"""
+    cache = getattr(loop, '_index_nodes', None)
+    if cache is not None:
+        return cache
+    K = ctx.kinds
+    state, acc = loop.steps[0].state, loop.steps[0].acc
+    out = set()
+    for nd, r, t in ctx.root_terms(f):
+        if loop.hid not in nd.loops:
+            continue
+        for s in walk_term(t):
+            if s[0] == 'call' and s[1][0] == 'attr' and s[1][2] == 'index' and len(s[2]) == 1:
+                lv = K.live_letters(strip_wrappers(s[1][1]), f)
+                if lv is not None:
+                    ls = K.live_set(lv, f)
+                    if ls is not None and ls[1] == state and ls[0] == acc:
+                        out.add(nd.id)
+    loop._index_nodes = out
+    return out
+
+
 def feasible_paths(ctx, f, loop, case):
+    """paths of the loop body that the abstract case can drive; a path may be cut short at a node whose
+    live_letters.index(sym) raises (symbol not live, no handler): it then ends as ('raise', ValueError)"""
     atom = case_atom(ctx, f, loop, case)
-    out = []
+    idx_nodes = index_nodes(ctx, f, loop)
+    member = case.get('member')
+    out, seen_cut = [], set()
     for path, kind in loop.paths:
         ok = True
-        for nd, pol in path_decisions(f, path):
-            if pol is None:
-                continue
-            t = f.term(nd.ast, nd)
-            for a, p in flatten_cond(t, pol):
-                v = feval(a, atom)
-                if v is not UNKNOWN and bool(v) != p:
+        decisions = {nd.id: pol for nd, pol in path_decisions(f, path)}
+        cut = None
+        established = False
+        for i, nid in enumerate(path):
+            nd = f.nodes[nid]
+            if nid in decisions and decisions[nid] is not None:
+                t = f.term(nd.ast, nd)
+                for a, p in flatten_cond(t, decisions[nid]):
+                    v = feval(a, atom)
+                    if v is not UNKNOWN and bool(v) != p:
+                        ok = False
+                        break
+                if not ok:
+                    break
+            if nid in idx_nodes and member is not None:
+                nxt = f.nodes[path[i + 1]] if i + 1 < len(path) else None
+                to_handler = nxt is not None and nxt.kind == 'except'
+                if member and to_handler:
                     ok = False
                     break
-            if not ok:
-                break
-        if ok:
-            out.append((path, kind))
+                if not member and not to_handler:
+                    if nd.handlers:
+                        ok = False          # the exceptional continuation is enumerated as its own path
+                        break
+                    cut = i
+                    break
+        if not ok:
+            continue
+        if cut is not None:
+            key = tuple(path[:cut + 1])
+            if key not in seen_cut:
+                seen_cut.add(key)
+                out.append((list(key), 'raise:ValueError'))
+            continue
+        out.append((path, kind))
     ctx.run.count('cases', 1)
     return out
 
@@ -371,6 +480,8 @@ def summarise(ctx, f, loop, path, kind):
     stepnodes = {s.node.id: s for s in loop.steps}
     s = {'exit': kind, 'steps': 0, 'inc': {}, 'stores': {}, 'appends': {}, 'raise': None, 'division': [],
          'col': None, 'events': events}
+    if kind.startswith('raise:'):
+        s['exit'], s['raise'] = 'raise', kind.split(':', 1)[1]
     for e in events:
         if e.kind == 'raise':
             s['raise'] = exc_name(e.term)
@@ -516,6 +627,10 @@ def check_table(ctx, name, f, loop, tab):
         ext = {'paths': len(sums), 'signature': sorted(map(str, got))}
         if got == want:
             run.ok('R-DEG', f, role, f.nodes[loop.hid].lineno, extracted=ext, expected=sorted(map(str, want)))
+        elif len(got) > 1 and want <= got:
+            run.undecided('R-DEG', f, role, f.nodes[loop.hid].lineno,
+                          'the branch tests do not determine one behaviour for this abstract case (%s): the dispatch is '
+                          'written in a form the finite-domain evaluator cannot resolve' % sorted(map(str, got)), extracted=ext)
         elif not got:
             run.refute('R-DEG', f, role, f.nodes[loop.hid].lineno,
                        "no path through the loop body is feasible for out-degree %d: the dispatch does not cover it"
@@ -971,86 +1086,67 @@ def r_endian(ctx):
 
 
 def r_ahead(ctx):
-    """look-ahead on the message cursor needs a bound"""
+    """look-ahead on the message cursor needs a bound (decided on terms, so temporaries do not matter)"""
     run = ctx.run
     run.rule('R-AHEAD', "every access of the message / output bits at cursor + c (c >= 1) in the fast-mode loops is "
                         "under a path condition cursor + c < length")
     n = 0
-    for name, arrname, lenatom in (('encode', 'binary_message', None), ('decode', None, 'bit_length')):
+    bl = ('v', 'bit_length', 'P')
+    for name in ('encode', 'decode'):
         f = ctx.p.func('dsw.spiderweb.' + name)
         for loop in coder_loops(ctx, f):
             if loop.mode != 'fast':
                 continue
-            cursors = set()
-            mc = message_cursor(ctx, f, loop)
-            if mc:
-                cursors.add(mc)
             body = [nd for nd in f.nodes if loop.hid in nd.loops]
-            # decoder: cursor = incremented name used in a store index
+            cursors = {d.name for nd in body for d in nd.defs if d.kind == 'aug'}
+            seen = set()
             for nd in body:
-                for d in nd.defs:
-                    if d.kind == 'aug':
-                        cursors.add(d.name)
-            for nd in body:
-                for r in ctx.roots(nd):
-                    for sub in ast.walk(r):
-                        if not isinstance(sub, ast.Subscript):
+                for n2, r, t in ctx.root_terms(f):
+                    if n2.id != nd.id:
+                        continue
+                    for s in walk_term(t):
+                        if s[0] != 'sub' or s in seen:
                             continue
-                        idx = sub.slice
-                        if isinstance(idx, ast.BinOp) and isinstance(idx.op, ast.Add) and isinstance(idx.left, ast.Name) \
-                                and idx.left.id in cursors and isinstance(idx.right, ast.Constant) \
-                                and isinstance(idx.right.value, int) and idx.right.value >= 1:
-                            base = sub.value.id if isinstance(sub.value, ast.Name) else None
-                            if base is None:
-                                continue
-                            bt = f.term(sub.value, nd)
-                            is_bits = (base == 'binary_message') or (bt[0] == 'v' and base == 'binary_message')
-                            # decoder output: array allocated with shape=(bit_length,)
-                            if not is_bits:
-                                for di in f.reaching(nd.id, base):
-                                    pass
-                                alloc = [d for d in f.defs if d.name == base and d.kind == 'assign']
-                                for d in alloc:
-                                    t = TermBuilder(f, d.node).def_term(d.id)
-                                    if t is not None and is_call(t, 'numpy.zeros', 'numpy.ones', 'numpy.empty'):
+                        idx = s[2]
+                        if not (idx[0] == 'bin' and idx[1] == '+' and idx[2][0] == 'v' and idx[2][1] in cursors and
+                                idx[3][0] == 'c' and isinstance(idx[3][1], int) and idx[3][1] >= 1):
+                            continue
+                        base = s[1]
+                        is_bits = base == ('v', 'binary_message', 'P')
+                        length_terms = []
+                        if is_bits:
+                            length_terms.append(('call', ('g', 'builtins.len'), (base,), ()))
+                        if base[0] == 'v' and not is_bits:
+                            for d in f.defs:
+                                if d.name == base[1] and d.kind == 'assign':
+                                    a = TermBuilder(f, d.node).def_term(d.id)
+                                    if a is not None and is_call(a, 'numpy.zeros', 'numpy.ones', 'numpy.empty'):
                                         is_bits = True
-                            if not is_bits:
+                                        sh = call_arg(a, 0, 'shape')
+                                        if sh is not None:
+                                            length_terms.append(sh[1] if sh[0] == 'tuple' and len(sh) == 2 else sh)
+                                        length_terms.append(('call', ('g', 'builtins.len'), (base,), ()))
+                        if not is_bits:
+                            continue
+                        seen.add(s)
+                        n += 1
+                        c = idx[3][1]
+                        cur = idx[2]
+                        guarded = False
+                        for atom, pol in ctx.conds(f, nd):
+                            if atom[0] != 'cmp' or atom[1] not in ('<', '<='):
                                 continue
-                            n += 1
-                            c = idx.right.value
-                            cur = idx.left.id
-                            guarded = False
-                            for atom, pol in ctx.conds(f, nd):
-                                if atom[0] != 'cmp':
-                                    continue
-                                a = atom
-                                # cursor + c < len  (pol True)  |  cursor + c >= len (pol False) ...
-                                forms = []
-                                if pol and a[1] == '<':
-                                    forms.append((a[2], a[3]))
-                                if pol and a[1] == '>':
-                                    forms.append((a[3], a[2]))
-                                if not pol and a[1] == '>=':
-                                    forms.append((a[2], a[3]))
-                                if not pol and a[1] == '<=':
-                                    forms.append((a[3], a[2]))
-                                for lo, hi in forms:
-                                    lo_ok = lo[0] == 'bin' and lo[1] == '+' and lo[2][0] == 'v' and lo[2][1] == cur \
-                                        and lo[3][0] == 'c' and lo[3][1] >= c
-                                    hi_ok = (is_call(hi, 'builtins.len') and hi[2] and hi[2][0][0] == 'v'
-                                             and hi[2][0][1] == base) or (hi[0] == 'v' and hi[1] == 'bit_length')
-                                    if lo_ok and hi_ok:
-                                        guarded = True
-                                if pol and a[1] == '<=' :
-                                    lo, hi = a[2], a[3]
-                                    if lo[0] == 'bin' and lo[1] == '+' and lo[2][0] == 'v' and lo[2][1] == cur and \
-                                            lo[3][0] == 'c' and lo[3][1] >= c + 1:
-                                        guarded = True
-                            run.check(guarded, 'R-AHEAD', f, 'fast:%s[%s+%d]' % (base, 'cursor', c), nd.lineno,
-                                      'look-ahead guarded by a bound on the cursor',
-                                      "%s[%s + %d] is accessed without a path condition %s + %d < length: IndexError "
-                                      "when the message length is odd" % (base, cur, c, cur, c),
-                                      inputs='fast mode, odd message length, last step at a 4-way vertex')
+                            lo, hi = (atom[2], atom[3]) if pol else (atom[3], atom[2])
+                            strict = (atom[1] == '<') if pol else (atom[1] == '<=')
+                            # lo < hi (strict) or lo <= hi
+                            if lo[0] == 'bin' and lo[1] == '+' and lo[2] == cur and lo[3][0] == 'c' and \
+                                    lo[3][1] >= (c if strict else c + 1) and any(hi == L for L in length_terms):
+                                guarded = True
+                        run.check(guarded, 'R-AHEAD', f, 'fast:bits[cursor+%d]' % c, nd.lineno,
+                                  'look-ahead guarded by a bound on the cursor',
+                                  "%s is accessed without a path condition cursor + %d < length: IndexError when the message "
+                                  "length is odd" % (show(s)[:60], c),
+                                  inputs='fast mode, odd message length, last step at a 4-way vertex')
     run.floor('R-AHEAD', 'look-ahead accesses in the fast-mode loops', n, 2)
 
 
@@ -1235,6 +1331,7 @@ def r_msg(ctx):
     # decode: what is returned
     bl = ('v', 'bit_length', 'P')
     rets = list(dec.stmts(ast.Return))
+    nforms = 0
     for r in rets:
         t = dec.term(r.stmt.value, r)
         alts = dec.alternatives(t) if t[0] == 'v' else None
@@ -1260,7 +1357,8 @@ def r_msg(ctx):
                       'the result is rendered / allocated at bit_length',
                       'decode\'s %s-mode result is not rendered at the requested bit_length (%s)' % (kind, show(t)[:80]),
                       inputs='every strand')
-        run.floor('R-MSG', 'recognised result forms of decode', sum(1 for k, _ in kinds if k != 'opaque'), 2)
+        nforms += sum(1 for k, _ in kinds if k != 'opaque')
+    run.floor('R-MSG', 'recognised result forms of decode', nforms, 2)
     for loop in coder_loops(ctx, dec):
         if loop.mode != 'fast':
             continue
